@@ -1,5 +1,6 @@
 /- Without merges no compactor ever flips a coin that derives from no draw. (Helper lemmas for C08.) -/
 import DSProofs.Lemmas.ReqBound
+import DSProofs.Lemmas.ReqRel2
 namespace DS.Req
 
 variable {ρ : Type}
@@ -49,14 +50,15 @@ theorem compressLoop_odd (T : Tun) (F : SecFns ρ) (hra : Bool) (k : Nat) :
       simp only [compressLoop]
       split
       · have hc1 : OddOK (sortIf0 h c) := by unfold sortIf0; split; exact sort_odd (ht c (by simp)); exact ht c (by simp)
-        have hnx : OddOK (nextOf T F hra k h rest) ∧ AllOdd rest.tail := by
+        have hnx : OddOK (nextOf T F hra k h rest acc.peek) ∧ AllOdd rest.tail := by
           cases rest with
-          | nil => exact ⟨fun ho => by simp [nextOf, Compactor.mk'] at ho, fun c hc => by simp at hc⟩
+          | nil => exact ⟨fun ho => by rw [show (nextOf T F hra k h [] acc.peek).state = 0 from (mkC_fields T F hra (h + 1) k acc.peek).2.2.2.2.2.2.1] at ho; simp at ho, fun c hc => by simp at hc⟩
           | cons x t => exact ⟨ht x (by simp), fun c hc => ht c (by simp only [List.tail_cons] at hc; simp [hc])⟩
-        have co := compact_odd T F (sortIf0 h c) (nextOf T F hra k h rest) acc.peek hc1 hnx.1
-        generalize (sortIf0 h c).compact T F (nextOf T F hra k h rest) acc.peek = res at co
-        have ha2 : (acc.afterCompact (sortIf0 h c).lgWeight res.fresh res.oddConst res.rangeOk).oddConst = false := by
-          rw [co.1]; exact afterCompact_odd acc _ _ _ ha
+        have co := compact_odd T F (sortIf0 h c) (nextOf T F hra k h rest acc.peek) (acc.growDraw T rest.isEmpty (h + 1)).peek hc1 hnx.1
+        generalize (sortIf0 h c).compact T F (nextOf T F hra k h rest acc.peek) (acc.growDraw T rest.isEmpty (h + 1)).peek = res at co
+        have ha1 : (acc.growDraw T rest.isEmpty (h + 1)).oddConst = false := by rw [(growDraw_acc T acc _ _).2.2.2.1]; exact ha
+        have ha2 : ((acc.growDraw T rest.isEmpty (h + 1)).afterCompact (sortIf0 h c).lgWeight res.fresh res.oddConst res.rangeOk).oddConst = false := by
+          rw [co.1]; exact afterCompact_odd _ _ _ _ ha1
         split
         · refine ⟨?_, ha2⟩
           intro c' hc'
@@ -65,8 +67,8 @@ theorem compressLoop_odd (T : Tun) (F : SecFns ρ) (hra : Bool) (k : Nat) :
           · rcases List.mem_cons.1 hc' with rfl | hc'
             · exact co.2.2
             · exact hnx.2 c' hc'
-        · have IH := ih (h + 1) (res.nxt :: rest.tail) (ctrAfter (ctrGrow T ctr rest.isEmpty (nextOf T F hra k h rest)) res)
-            (acc.afterCompact (sortIf0 h c).lgWeight res.fresh res.oddConst res.rangeOk)
+        · have IH := ih (h + 1) (res.nxt :: rest.tail) (ctrAfter (ctrGrow T ctr rest.isEmpty (nextOf T F hra k h rest acc.peek)) res)
+            ((acc.growDraw T rest.isEmpty (h + 1)).afterCompact (sortIf0 h c).lgWeight res.fresh res.oddConst res.rangeOk)
             (fun c' hc' => by rcases List.mem_cons.1 hc' with rfl | hc'; exact co.2.2; exact hnx.2 c' hc') ha2
           refine ⟨?_, IH.2⟩
           intro c' hc'
@@ -107,10 +109,12 @@ theorem stepOp_odd (T : Tun) (F : SecFns ρ) (st : Store ρ) (acc : Acc) (op : O
     AllSk (fun s => AllOdd s.compactors) (stepOp T F st acc op).1 ∧ (stepOp T F st acc op).2.oddConst = false := by
   cases op with
   | new id k hra =>
-    refine ⟨AllSk_set hs id _ ?_, ha⟩
+    refine ⟨AllSk_set hs id _ ?_, by show (acc.drawIf T.initCoinRandom 0).oddConst = false; rw [(drawIf_acc acc _ _).2.2.2.1]; exact ha⟩
     intro c hc
-    simp only [Sketch.new, Sketch.grow, List.nil_append, List.mem_singleton] at hc
-    subst hc; intro ho; simp [Compactor.mk'] at ho
+    rw [(new_compactors T F k hra acc.peek).1] at hc
+    simp only [List.mem_singleton] at hc
+    subst hc; intro ho
+    rw [(mkC_fields T F hra 0 (effectiveK T k) acc.peek).2.2.2.2.2.2.1] at ho; simp at ho
   | upd id x =>
     simp only [stepOp]
     cases hg : st.get id with
@@ -162,5 +166,258 @@ theorem runOps_odd (T : Tun) (F : SecFns ρ) (ops : List Op) (hops : ∀ op ∈ 
     simp only [runOps]
     have := stepOp_odd T F st acc op (hops op (by simp)) hs ha
     exact ih (fun o ho => hops o (List.mem_cons_of_mem _ ho)) _ _ this.1 this.2
+
+/-! ### the repaired shape: every coin derives from a draw -/
+
+def AllRnd (cs : List (Compactor ρ)) : Prop := ∀ c ∈ cs, c.rnd = true
+
+theorem allOdd_of_allRnd {cs : List (Compactor ρ)} (h : AllRnd cs) : AllOdd cs := fun c hc _ => h c hc
+
+theorem compact_rnd (T : Tun) (F : SecFns ρ) (c nxt : Compactor ρ) (d : Bool) (hc : c.rnd = true) (hn : nxt.rnd = true) :
+    (c.compact T F nxt d).cur.rnd = true ∧ (c.compact T F nxt d).nxt.rnd = true := by
+  refine ⟨?_, hn⟩
+  simp only [Compactor.compact]
+  rw [(ensureEnough_items T F _).2.2.2.2.2.2.2]
+  show (if c.state % 2 = 1 then c.rnd else true) = true
+  split <;> simp [hc]
+
+theorem compressLoop_rnd (T : Tun) (F : SecFns ρ) (hf : T.initCoinRandom = true) (hra : Bool) (k : Nat) :
+    ∀ (fuel h : Nat) (todo : List (Compactor ρ)) (ctr : Ctr) (acc : Acc), AllRnd todo →
+      AllRnd (compressLoop T F hra k fuel h todo ctr acc).1 := by
+  intro fuel
+  induction fuel with
+  | zero => intro h todo ctr acc ht; exact ht
+  | succ fuel ih =>
+    intro h todo ctr acc ht
+    cases todo with
+    | nil => exact ht
+    | cons c rest =>
+      simp only [compressLoop]
+      split
+      · have hc1 : (sortIf0 h c).rnd = true := by
+          unfold sortIf0; split
+          · rw [(sort_fields c).2.2.2.2.2.2.2.1]; exact ht c (by simp)
+          · exact ht c (by simp)
+        have hnx : (nextOf T F hra k h rest acc.peek).rnd = true ∧ AllRnd rest.tail := by
+          cases rest with
+          | nil => exact ⟨((mkC_fields T F hra (h + 1) k acc.peek).2.2.2.2.2.2.2.2.2.1 hf).1, fun c hc => by simp at hc⟩
+          | cons x t => exact ⟨ht x (by simp), fun c hc => ht c (by simp only [List.tail_cons] at hc; simp [hc])⟩
+        have co := compact_rnd T F (sortIf0 h c) (nextOf T F hra k h rest acc.peek) (acc.growDraw T rest.isEmpty (h + 1)).peek hc1 hnx.1
+        generalize (sortIf0 h c).compact T F (nextOf T F hra k h rest acc.peek) (acc.growDraw T rest.isEmpty (h + 1)).peek = res at co
+        split
+        · intro c' hc'
+          rcases List.mem_cons.1 hc' with rfl | hc'
+          · exact co.1
+          · rcases List.mem_cons.1 hc' with rfl | hc'
+            · exact co.2
+            · exact hnx.2 c' hc'
+        · have IH := ih (h + 1) (res.nxt :: rest.tail) (ctrAfter (ctrGrow T ctr rest.isEmpty (nextOf T F hra k h rest acc.peek)) res)
+            ((acc.growDraw T rest.isEmpty (h + 1)).afterCompact (sortIf0 h c).lgWeight res.fresh res.oddConst res.rangeOk)
+            (fun c' hc' => by rcases List.mem_cons.1 hc' with rfl | hc'; exact co.2; exact hnx.2 c' hc')
+          intro c' hc'
+          rcases List.mem_cons.1 hc' with rfl | hc'
+          · exact co.1
+          · exact IH c' hc'
+      · have IH := ih (h + 1) rest ctr acc (fun c' hc' => ht c' (List.mem_cons_of_mem _ hc'))
+        intro c' hc'
+        rcases List.mem_cons.1 hc' with rfl | hc'
+        · exact ht c' (by simp)
+        · exact IH c' hc'
+
+theorem compress_rnd (T : Tun) (F : SecFns ρ) (hf : T.initCoinRandom = true) (s : Sketch ρ) (acc : Acc) (h : AllRnd s.compactors) :
+    AllRnd (s.compress T F acc).1.compactors := compressLoop_rnd T F hf _ _ _ 0 _ _ acc h
+
+theorem growTo_rnd (T : Tun) (F : SecFns ρ) (hf : T.initCoinRandom = true) (target : Nat) : ∀ (fuel : Nat) (s : Sketch ρ) (acc : Acc),
+    AllRnd s.compactors → AllRnd (growTo T F fuel target s acc).1.compactors := by
+  intro fuel
+  induction fuel with
+  | zero => intro s acc h; exact h
+  | succ n ih =>
+    intro s acc h
+    simp only [growTo]
+    split
+    · apply ih
+      intro c hc
+      simp only [Sketch.grow, List.mem_append, List.mem_singleton] at hc
+      rcases hc with hc | rfl
+      · exact h c hc
+      · exact ((mkC_fields T F _ _ _ _).2.2.2.2.2.2.2.2.2.1 hf).1
+    · exact h
+
+theorem cmerge_rnd (T : Tun) (F : SecFns ρ) (c o : Compactor ρ) (h : c.rnd = true) : (c.merge T F o).rnd = true := by
+  show (Compactor.ensureLoop T F ((c.orState o).state + 2) (c.orState o)).rnd = true
+  rw [(ensureLoop_items T F _ _).2.2.2.2.2.2.2]; exact h
+
+theorem mergeLevels_rnd (T : Tun) (F : SecFns ρ) : ∀ (cs os : List (Compactor ρ)), AllRnd cs → AllRnd (mergeLevels T F cs os) := by
+  intro cs
+  induction cs with
+  | nil => intro os _ c hc; cases os <;> simp [mergeLevels] at hc
+  | cons c t ih =>
+    intro os h
+    cases os with
+    | nil => simpa [mergeLevels] using h
+    | cons o ot =>
+      intro c' hc'
+      simp only [mergeLevels] at hc'
+      rcases List.mem_cons.1 hc' with rfl | hc'
+      · exact cmerge_rnd T F c o (h c (by simp))
+      · exact ih ot (fun x hx => h x (List.mem_cons_of_mem _ hx)) c' hc'
+
+theorem merge_rnd (T : Tun) (F : SecFns ρ) (hf : T.initCoinRandom = true) (s o : Sketch ρ) (acc : Acc) (h : AllRnd s.compactors)
+    (r : Sketch ρ × Acc) (hr : s.merge T F o acc = some r) : AllRnd r.1.compactors := by
+  have hp : AllRnd (s.mergePre T F o acc).1.compactors := mergeLevels_rnd T F _ _ (growTo_rnd T F hf _ _ s acc h)
+  simp only [Sketch.merge] at hr
+  split at hr
+  · exact absurd hr (by simp)
+  · split at hr
+    · have : r = (s, acc) := by simpa using hr.symm
+      subst this; exact h
+    · split at hr
+      · have : r = (s.mergePre T F o acc).1.compress T F (s.mergePre T F o acc).2 := by simpa using hr.symm
+        subst this; exact compress_rnd T F hf _ _ hp
+      · have : r = s.mergePre T F o acc := by simpa using hr.symm
+        subst this; exact hp
+
+theorem stepOp_rnd (T : Tun) (F : SecFns ρ) (hf : T.initCoinRandom = true) (st : Store ρ) (acc : Acc) (op : Op)
+    (hs : AllSk (fun s => AllRnd s.compactors) st) : AllSk (fun s => AllRnd s.compactors) (stepOp T F st acc op).1 := by
+  cases op with
+  | new id k hra =>
+    refine AllSk_set hs id _ ?_
+    intro c hc
+    rw [(new_compactors T F k hra acc.peek).1] at hc
+    simp only [List.mem_singleton] at hc
+    subst hc; exact ((mkC_fields T F _ _ _ _).2.2.2.2.2.2.2.2.2.1 hf).1
+  | upd id x =>
+    simp only [stepOp]
+    cases hg : st.get id with
+    | none => exact hs
+    | some s =>
+      refine AllSk_set hs id _ ?_
+      have h1 : AllRnd (s.append1 x).compactors := by
+        show AllRnd (appendLevel0 s.compactors x)
+        have hh : AllRnd s.compactors := hs id s hg
+        cases hc : s.compactors with
+        | nil => intro c hc'; simp [appendLevel0] at hc'
+        | cons c0 t =>
+          rw [hc] at hh
+          intro c hc'
+          simp only [appendLevel0] at hc'
+          rcases List.mem_cons.1 hc' with rfl | hc'
+          · exact hh c0 (by simp)
+          · exact hh c (List.mem_cons_of_mem _ hc')
+      simp only [Sketch.update]
+      split
+      · exact compress_rnd T F hf _ _ h1
+      · exact h1
+  | merge i j =>
+    simp only [stepOp]
+    split
+    · exact hs
+    · cases hg : st.get i with
+      | none => exact hs
+      | some s =>
+        cases hg' : st.get j with
+        | none => exact hs
+        | some o =>
+          simp only
+          cases hm : s.merge T F o acc with
+          | none => exact hs
+          | some r => exact AllSk_set hs i _ (merge_rnd T F hf s o acc (hs i s hg) r hm)
+  | copy i j =>
+    simp only [stepOp]
+    cases hg : st.get i with
+    | none => exact hs
+    | some s => exact AllSk_set hs j _ (hs i s hg)
+  | rankq id =>
+    simp only [stepOp]
+    cases hg : st.get id with
+    | none => exact hs
+    | some s =>
+      refine AllSk_set hs id _ ?_
+      intro c hc
+      simp only [Sketch.afterRank, sortAll, List.mem_map] at hc
+      obtain ⟨c0, h0, rfl⟩ := hc
+      rw [(sort_fields c0).2.2.2.2.2.2.2.1]; exact hs id s hg c0 h0
+  | viewq id =>
+    simp only [stepOp]
+    cases hg : st.get id with
+    | none => exact hs
+    | some s =>
+      refine AllSk_set hs id _ ?_
+      intro c hc
+      have hc' : c ∈ sortLevel0 s.compactors := hc
+      have hh : AllRnd s.compactors := hs id s hg
+      cases hcs : s.compactors with
+      | nil => rw [hcs] at hc'; simp [sortLevel0] at hc'
+      | cons c0 t =>
+        rw [hcs] at hc' hh
+        simp only [sortLevel0] at hc'
+        rcases List.mem_cons.1 hc' with rfl | hc'
+        · rw [(sort_fields c0).2.2.2.2.2.2.2.1]; exact hh c0 (by simp)
+        · exact hh c (List.mem_cons_of_mem _ hc')
+
+theorem growTo_oddConst (T : Tun) (F : SecFns ρ) (target : Nat) : ∀ (fuel : Nat) (s : Sketch ρ) (acc : Acc),
+    (growTo T F fuel target s acc).2.oddConst = acc.oddConst := by
+  intro fuel
+  induction fuel with
+  | zero => intro s acc; rfl
+  | succ n ih =>
+    intro s acc
+    simp only [growTo]
+    split
+    · rw [ih, (drawIf_acc acc _ _).2.2.2.1]
+    · rfl
+
+/-- in the repaired shape no compaction ever flips a coin that derives from no draw — merges included -/
+theorem stepOp_oddR (T : Tun) (F : SecFns ρ) (hf : T.initCoinRandom = true) (st : Store ρ) (acc : Acc) (op : Op)
+    (hs : AllSk (fun s => AllRnd s.compactors) st) (ha : acc.oddConst = false) : (stepOp T F st acc op).2.oddConst = false := by
+  by_cases hm : isMerge op = false
+  · exact (stepOp_odd T F st acc op hm (fun id s hg => allOdd_of_allRnd (hs id s hg)) ha).2
+  · cases op with
+    | merge i j =>
+      simp only [stepOp]
+      split
+      · exact ha
+      · cases hg : st.get i with
+        | none => exact ha
+        | some s =>
+          cases hg' : st.get j with
+          | none => exact ha
+          | some o =>
+            simp only
+            have hp : AllRnd (s.mergePre T F o acc).1.compactors := mergeLevels_rnd T F _ _ (growTo_rnd T F hf _ _ s acc (hs i s hg))
+            have hpa : (s.mergePre T F o acc).2.oddConst = false := by
+              show (growTo T F _ _ s acc).2.oddConst = false
+              rw [growTo_oddConst]; exact ha
+            cases hmm : s.merge T F o acc with
+            | none => exact ha
+            | some r =>
+              simp only [Sketch.merge] at hmm
+              split at hmm
+              · exact absurd hmm (by simp)
+              · split at hmm
+                · have : r = (s, acc) := by simpa using hmm.symm
+                  subst this; exact ha
+                · split at hmm
+                  · have : r = (s.mergePre T F o acc).1.compress T F (s.mergePre T F o acc).2 := by simpa using hmm.symm
+                    subst this
+                    exact (compressLoop_odd T F _ _ _ 0 _ _ _ (allOdd_of_allRnd hp) hpa).2
+                  · have : r = s.mergePre T F o acc := by simpa using hmm.symm
+                    subst this; exact hpa
+    | new _ _ _ => simp [isMerge] at hm
+    | upd _ _ => simp [isMerge] at hm
+    | copy _ _ => simp [isMerge] at hm
+    | rankq _ => simp [isMerge] at hm
+    | viewq _ => simp [isMerge] at hm
+
+theorem runOps_oddR (T : Tun) (F : SecFns ρ) (hf : T.initCoinRandom = true) (ops : List Op) :
+    ∀ (st : Store ρ) (acc : Acc), AllSk (fun s => AllRnd s.compactors) st → acc.oddConst = false →
+      (runOps T F st acc ops).2.oddConst = false := by
+  induction ops with
+  | nil => intro st acc _ ha; exact ha
+  | cons op ops ih =>
+    intro st acc hs ha
+    simp only [runOps]
+    exact ih _ _ (stepOp_rnd T F hf st acc op hs) (stepOp_oddR T F hf st acc op hs ha)
 
 end DS.Req
